@@ -8,6 +8,8 @@ import (
 	"reflect"
 	"regexp"
 	"strings"
+	"unicode"
+	"unicode/utf8"
 
 	"golang.org/x/tools/go/ssa"
 )
@@ -732,15 +734,40 @@ func (e *Engine) isSpaceASCII(b *Term) *Term {
 func intrTrimSpace(e *Engine, st *State, c ssa.CallInstruction, a []Value) []*State {
 	tt := e.TT
 	s := a[0].(StrV)
-	e.asciiOnly(st, c, s, "strings.TrimSpace")
 	n := len(s.B)
 	sp := make([]*Term, n)
 	allConst := true
-	for i, b := range s.B {
+	for i := 0; i < n; {
+		b := s.B[i]
+		if b.Op == OpConst && b.Val >= 0x80 {
+			// a concrete non-ASCII rune: decoded natively when all of its bytes are concrete
+			// (strings.TrimSpace trims Unicode white space; its ASCII loop is only a fast path)
+			var buf []byte
+			for k := i; k < n && k < i+4 && s.B[k].Op == OpConst; k++ {
+				buf = append(buf, byte(s.B[k].Val))
+			}
+			r, w := utf8.DecodeRune(buf)
+			if r == utf8.RuneError && w <= 1 && len(buf) < 4 && i+len(buf) < n {
+				// an incomplete sequence followed by a symbolic byte: not decided here
+				e.asciiOnly(st, c, StrV{B: s.B[i : i+1]}, "strings.TrimSpace")
+				w = 1
+			}
+			v := tt.False
+			if r != utf8.RuneError && unicode.IsSpace(r) {
+				v = tt.True
+			}
+			for k := 0; k < w; k++ {
+				sp[i+k] = v
+			}
+			i += w
+			continue
+		}
+		e.asciiOnly(st, c, StrV{B: s.B[i : i+1]}, "strings.TrimSpace")
 		sp[i] = e.isSpaceASCII(b)
 		if sp[i].Op != OpConst {
 			allConst = false
 		}
+		i++
 	}
 	if allConst {
 		i, j := 0, n
